@@ -222,12 +222,19 @@ def ascii_char(T, lit, what):
     return c
 
 
-def classify_condition(T, src, e, follow=True):
-    """One disjunct of `str_needs_quoting` as a tagged tuple."""
+def classify_condition(T, src, e, follow=True, firstvar=None):
+    """One disjunct of `str_needs_quoting` as a tagged tuple.  `firstvar`: the variable a leading
+    `let Some(v) = s.chars().next() else { return true; };` bound to the first character."""
     what = "str_needs_quoting"
     e = strip_parens(e)
     if e == "s.is_empty()":
         return ("empty",)
+    if firstvar and re.search(r"(?<![A-Za-z0-9_.])" + re.escape(firstvar) + r"(?![A-Za-z0-9_(])", e):
+        # a test of the first character (`matches!(first, '#' | '~')`, `first == '#' || …`, a table, a helper)
+        cs, ws = pred_chars(T, src, e, firstvar, what)
+        if ws:
+            T.fail("str_needs_quoting: whitespace test in the first-character rule")
+        return ("first", cs)
     if e in ("s.chars().any(char_needs_quoting)", "s.chars().any(|c|char_needs_quoting(c))"):
         return ("any",)
     m = re.fullmatch(r's\.contains\("([^"\\]+)"\)', e)
@@ -246,7 +253,17 @@ def classify_condition(T, src, e, follow=True):
         if ws:
             T.fail("str_needs_quoting: whitespace test in the first-character rule")
         return ("first", cs)
-    for pat in (r"letSome\(i\)=s\.find\((CH)\)&&s\[i\+1\.\.\]\.contains\((CH)\)",
+    # `s[i + <open>.len_utf8()..]`: no one-byte restriction needed
+    for pat in (r"matchs\.find\((CH)\)\{Some\(i\)=>s\[i\+\1\.len_utf8\(\)\.\.\]\.contains\((CH)\),None=>false,?\}",
+                r"matchs\.find\((CH)\)\{None=>false,Some\(i\)=>s\[i\+\1\.len_utf8\(\)\.\.\]\.contains\((CH)\),?\}",
+                r"letSome\(i\)=s\.find\((CH)\)&&s\[i\+\1\.len_utf8\(\)\.\.\]\.contains\((CH)\)",
+                r"s\.find\((CH)\)\.is_some_and\(\|i\|s\[i\+\1\.len_utf8\(\)\.\.\]\.contains\((CH)\)\)"):
+        m = re.fullmatch(pat.replace("CH", CHAR_LIT), e)
+        if m:
+            lits = [g for g in m.groups() if g is not None and re.fullmatch(CHAR_LIT[1:-1], g)]
+            return ("pair", T.rust_char(lits[0]), T.rust_char(lits[-1]))
+    for pat in (r"matchs\.find\((CH)\)\{Some\(i\)=>s\[i\+1\.\.\]\.contains\((CH)\),None=>false,?\}",
+                r"letSome\(i\)=s\.find\((CH)\)&&s\[i\+1\.\.\]\.contains\((CH)\)",
                 r"s\.find\((CH)\)\.is_some_and\(\|i\|s\[i\+1\.\.\]\.contains\((CH)\)\)",
                 r"matchs\.split_once\((CH)\)\{Some\(\(_,([a-z_]+)\)\)=>\3\.contains\((CH)\),None=>false,?\}",
                 r"s\.split_once\((CH)\)\.is_some_and\(\|\(_,([a-z_]+)\)\|\3\.contains\((CH)\)\)"):
@@ -261,9 +278,20 @@ def classify_condition(T, src, e, follow=True):
     T.fail(f"str_needs_quoting: unrecognised condition `{e}`")
 
 
+FIRST_LET = re.compile(r"letSome\(([a-z_][a-z0-9_]*)\)=s\.chars\(\)\.next\(\)else\{returntrue;\};")
+
+
 def conditions_of(T, body):
     """The disjuncts of a function written as `if c {return true;}`… and/or a final `a || b || …`."""
     conds, rest = [], squash(body)
+    firstvar = None
+    m = FIRST_LET.match(rest)
+    if m:
+        # `let Some(first) = s.chars().next() else { return true; };` = the empty-string rule, and `first`
+        # is the first character in what follows
+        conds.append("s.is_empty()")
+        firstvar = m.group(1)
+        rest = rest[m.end():]
     while rest.startswith("if"):
         k = rest.find("{returntrue;}")
         if k < 0:
@@ -271,8 +299,10 @@ def conditions_of(T, body):
         conds.append(rest[2:k])
         rest = rest[k + len("{returntrue;}"):]
     if rest != "false":
+        if ";" in rest or rest.startswith("let") or "return" in rest:
+            T.fail(f"str_needs_quoting: statements that are neither `if c {{ return true; }}` nor the final expression: `{rest}`")
         conds += split_top(rest, "||")
-    return conds
+    return conds, firstvar
 
 
 def quote_tables(T):
@@ -305,7 +335,8 @@ def quote_tables(T):
 
     # --- str_needs_quoting: a disjunction of pure conditions (order irrelevant for the model)
     sbody = T.item_body(src, r"fn str_needs_quoting\(s: &str\) -> bool", "yash-quote str_needs_quoting")
-    conds = [classify_condition(T, src, c) for c in conditions_of(T, sbody)]
+    raw_conds, firstvar = conditions_of(T, sbody)
+    conds = [classify_condition(T, src, c, firstvar=firstvar) for c in raw_conds]
     if [c for c in conds if c[0] == "empty"] != [("empty",)]:
         T.fail("str_needs_quoting: the empty-string rule must occur exactly once")
     if [c for c in conds if c[0] == "any"] != [("any",)]:
